@@ -4,6 +4,7 @@ mod g_star;
 mod g_wasm;
 mod g_fp;
 mod g_ggm;
+mod g_pp;
 mod g_sharks;
 mod layout;
 mod util;
@@ -33,14 +34,26 @@ fn main() {
         "C03" => g_star::gen_c03(seed, thorough, only, &mut out),
         "C04" => g_star::gen_c04(seed, thorough, only, &mut out),
         "C05" => g_star::gen_c05(seed, thorough, only, &mut out),
-        "C10" | "C11" => g_ggm::gen(seed, thorough, only, &mut out),
+        "C10" => g_ggm::gen(seed, thorough, only, &mut out),
+        "C11" => {
+          g_ggm::gen(seed, thorough, only, &mut out);
+          // the exported key state: export / import between server instances at every point of a history
+          g_pp::gen_c14(seed ^ 0x11, thorough, only, &mut out);
+        }
         "C17" => g_wasm::gen_c17(seed, thorough, only, &mut out),
         "C18" => g_wasm::gen_c18(seed, thorough, only, &mut out),
         "C08" => g_codec::gen(seed, thorough, only, &mut out),
         "C09" => {
           g_codec::gen(seed ^ 0x9, thorough, only, &mut out);
           g_codec::gen_degenerate(seed, thorough, &mut out);
+          g_pp::gen_c09(seed, thorough, &mut out);
+          g_pp::gen_c15(seed ^ 0x15, false, only, &mut out);
+          g_wasm::gen_c17(seed ^ 0x17, false, only, &mut out);
         }
+        "C12" => g_pp::gen_c12(seed, thorough, only, &mut out),
+        "C13" => g_pp::gen_c13(seed, thorough, only, &mut out),
+        "C14" => g_pp::gen_c14(seed, thorough, only, &mut out),
+        "C15" => g_pp::gen_c15(seed, thorough, only, &mut out),
         "C07" => g_fp::gen(seed, thorough, only, &mut out),
         _ => {
           eprintln!("unknown property {}", prop);
@@ -53,6 +66,7 @@ fn main() {
         writeln!(w, "{}", l).unwrap();
       }
     }
+    "oracle" => g_pp::oracle(),
     _ => {
       eprintln!("unknown command");
       std::process::exit(2);
